@@ -178,6 +178,7 @@ func (p *ParagraphReader) Next() (*Paragraph, error) {
 		Values: map[string]string{},
 	}
 	var lastKey string
+	var haveKey bool
 
 	for {
 		line, err := p.reader.ReadString('\n')
@@ -229,6 +230,10 @@ func (p *ParagraphReader) Next() (*Paragraph, error) {
 			 * right hand, because indentation under the whitespace is up to
 			 * the data format. Not us. */
 
+			if !haveKey {
+				return nil, fmt.Errorf("Bad line: '%s' continues no field", line)
+			}
+
 			/* TrimFunc(line[1:], unicode.IsSpace) is identical to calling
 			 * TrimSpace. */
 			line = strings.TrimRightFunc(line[1:], unicode.IsSpace)
@@ -259,8 +264,8 @@ func (p *ParagraphReader) Next() (*Paragraph, error) {
 		lastKey = strings.TrimSpace(els[0])
 		value := strings.TrimSpace(els[1])
 
-		paragraph.Order = append(paragraph.Order, lastKey)
-		paragraph.Values[lastKey] = value
+		paragraph.Set(lastKey, value)
+		haveKey = true
 	}
 }
 
